@@ -28,7 +28,9 @@ NOT_COVERED = [
 ]
 
 
-def mk(rank, beta2_one):
+def mk(rank, beta2_one, normalize=False):
+  """normalize: normalize_grads=True - the whole contract is then about the NORMALISED gradient g / (|g| + tiny): the
+  accumulators cover its decayed sum of squares and the step is bounded by the diagonal method's step on it."""
 
   def t(ctx, it):
     m = it.load_module(SM)
@@ -41,9 +43,10 @@ def mk(rank, beta2_one):
     else:
       beta2 = spec.fresh_real("beta2")
       ctx.assume(sym.sand(beta2 > 0, beta2 < 1))
-    opt = m.sm3(lr, beta1=0.0, beta2=beta2, diagonal_epsilon=eps, weight_decay=0.0)
+    opt = m.sm3(lr, beta1=0.0, beta2=beta2, diagonal_epsilon=eps, weight_decay=0.0, normalize_grads=normalize)
     dims = tuple(spec.fresh_int(f"d{a}", lo=1) for a in range(rank))
-    g = T.opaque("g", dims)
+    g_raw = T.opaque("g", dims)
+    g = g_raw
     Tg = T.opaque("T", dims)     # ghost: exact decayed sum of squares
     nu = T.opaque("nu", dims)    # ghost: last per-entry estimate
     accs = [T.opaque(f"acc{i}", (dims[i],)) for i in range(rank)]
@@ -81,7 +84,16 @@ def mk(rank, beta2_one):
       ctx.assume(inv_at(y))
     mom = QV.from_float_value(T.zeros(dims), T.int8)
     state = m.SM3State(count=T.zeros((), T.int32), stats=m.ParameterStats(accs, mom))
-    updates, new_state = opt.update(g, state, g)
+    n_red = len(ctx.ghost.setdefault("reduce_calls", []))
+    updates, new_state = opt.update(g_raw, state, g_raw)
+    if normalize:
+      nrm = [r_ for r_ in ctx.ghost["reduce_calls"][n_red:] if r_.kind == "norm"]
+      ctx.require("sm3.update_fn.normalize_grads: one norm, over the gradient", len(nrm) >= 1)
+      yy = tuple(spec.fresh_int(f"yn{a}") for a in range(rank))
+      ctx.assume(sym.sand(*[sym.sand(yy[a] >= 0, yy[a] < dims[a]) for a in range(rank)]))
+      ctx.oblige("sm3.update_fn.normalize_grads: the norm ranges over the raw gradient", nrm[0].x.at(yy) == g_raw.at(yy))
+      Nv = nrm[0].value(())
+      g = T.Tensor(dims, T.float32, lambda idx: g_raw.at(idx) / (Nv + 1e-16))
     new_accs = new_state.stats.diagonal_statistics
     w = 1.0 if beta2_one else 1.0 - beta2
     g2 = g.at(x) * g.at(x)
@@ -139,6 +151,8 @@ def tasks(tier):
   for r in (1, 2, 3, 4):
     for b1 in (False, True):
       ts.append(Task(f"sm3.update[rank={r},beta2=1:{b1}]", mk(r, b1)))
+  for r, b1 in ((1, True), (2, False), (2, True), (3, False)):
+    ts.append(Task(f"sm3.update[rank={r},beta2=1:{b1},normalize_grads]", mk(r, b1, True)))
   return ts
 
 
